@@ -12,6 +12,14 @@ PROPS = {
         "level_note": "crc32fast assumed to compute CRC-32 (uninterpreted crc32); the wiring of Crc32Reader around every decoder in read.rs (make_reader / is_ae2_encrypted) is decided only once unit U8 is built - until then listed under undecided_clauses in the evidence",
         "undecided": ["make_reader wraps every decoding variant in Crc32Reader with the entry's declared CRC and the AE-2 flag (unit U8, not built yet)"],
     },
+    "C03": {
+        "units": ["U4_end_records"],
+        "kani": ["types"],
+        "technique": "Verus contracts on the end-record search/parsers against APPNOTE spec functions; Kani complete harness for the attribute-to-mode table",
+        "level_text": "Deductive proof over all byte strings and all I/O outcomes: the end-of-central-directory search returns the last signature occurrence whose record fits (so trailing garbage is tolerated), every field equals the APPNOTE 4.3.16/4.3.15/4.3.14 decode of the bytes at that offset, the ZIP64 forward search returns the first record at or after the nominal offset, and an error is returned only on a device fault or when no well-formed record exists in the window. unix_mode() is proved for all 2^32 attribute words x 256 systems with Kani.",
+        "level_note": "I/O model of contracts/shims/io.rs; central-header parsing, ZIP64 extra fields, directory walk, name lookup and data offsets (units U5, U6, U8) are not under contract yet and are listed as undecided; decoders assumed",
+        "undecided": ["central directory header decode, ZIP64 extra-field substitution, archive offset shift (unit U5)", "directory walk, names_map last-wins, by_name/by_index not-found, find_content data offset (units U6/U8)", "entry content equals original bytes (decoders assumed, CRC layer = C04)"],
+    },
     "C18": {
         "units": [],
         "kani": ["types"],
